@@ -396,6 +396,7 @@ func (x *executor) roundTrip(r *root, p reflect.Value, devs []string, choices []
 	}
 	x.distinct(e1)
 	x.curSize = len(e1)
+	okEntry := map[string]bool{}
 	entries := []string{epBytes, epReader} // the streaming entry point for EVERY value (see stream.go)
 	if allEntries {
 		entries = r.Entries
@@ -437,13 +438,14 @@ func (x *executor) roundTrip(r *root, p reflect.Value, devs []string, choices []
 			x.violation("reencode-fails", fmt.Sprintf("%s via %s: re-encoding the decoded value fails: %v %v", r.Name, ep, c.val, err), replay(map[string]interface{}{"entry": ep, "input": hexOf(e)}))
 			continue
 		}
+		okEntry[ep] = true
 		if !bytes.Equal(e, e2) {
 			x.violation("reencode-differs:"+firstDiffLeaf(x.reg, e, e2), fmt.Sprintf("%s via %s: enc(dec(enc(v))) != enc(v): %s vs %s", r.Name, ep, hexOf(e), hexOf(e2)), replay(map[string]interface{}{"entry": ep, "input": hexOf(e)}))
 		}
 	}
 	for _, ep := range entries {
-		if ep != epReader && ep != epReaderT {
-			continue
+		if ep != epReader && ep != epReaderT || !okEntry[ep] {
+			continue // the chunked deliveries are compared with a one-piece decode that gave the original value
 		}
 		e := e1
 		if ep == epReaderT {
